@@ -1,5 +1,6 @@
 import Thanos.Common.Parse
 import Thanos.Model.Rules
+import Thanos.Model.Memcached
 /-
   Line-protocol driver of the `misc` family (C45 C46 C47 C48 C49).
   One request per line, one answer per line; every line is self-contained.
@@ -15,6 +16,17 @@ import Thanos.Model.Rules
       groups = group{|group} | -    group = hexfile/hexname{/rule}
       rule   = kind:hexname:hexquery:dur:state:lastEval:labels      kind = a|r
       answer: same group format, labels as hexname=hexvalue
+
+  C49
+    mc.jump <key> <n>                                   -> bucket | none          (jumpHash)
+    mc.pick <listed> <perm> <keys>                      -> <single> <batch>
+    mc.two  <listedA> <permA> <listedB> <permB> <keys>  -> <singleA> <singleB>
+      listed = hexsrv{,hexsrv} | -     servers as passed to SetServers
+      perm   = i{,i} | -               what natsort.Sort does to the lexically sorted list (input):
+                                       final[k] = lexsorted[perm[k]]
+      keys   = hexkey:hash{,hexkey:hash} | -       hash = xxhash64 of the key, decimal (input)
+      single = per key the picked hexsrv, or err, joined by ","  (- for no keys)
+      batch  = err | hexsrv=hexkey+hexkey{;…} sorted by server (a server without keys: hexsrv=-) | - (empty map)
 -/
 open Thanos Thanos.Parse
 
@@ -94,7 +106,59 @@ def showRule (r : Rules.Rule) : String :=
 def showGroup (g : Rules.Group) : String :=
   "/".intercalate (hexS g.file :: hexS g.name :: g.rules.map showRule)
 
+/-! ### C49 -/
+
+def parseKeys (s : String) : Option (List (String × UInt64)) :=
+  (listOf ',' s).mapM fun t =>
+    match splitChar ':' t with
+    | [k, h] => do
+      let _ ← hexDecode? k
+      let h ← parseNat? h
+      if h < 2 ^ 64 then pure (k, UInt64.ofNat h) else none
+    | _ => none
+
+def parseServers (s : String) : Option (List String) :=
+  (listOf ',' s).mapM fun t => do let _ ← hexDecode? t; pure t
+
+/-- the selector's address list: lexical sort (model) then the rearrangement natsort makes (input) -/
+def sortedOf (listed : List String) (perm : List Nat) : Option (List String) :=
+  Memcached.applyPerm perm (Memcached.canon listed)
+
+def showSingle (sorted : List String) (keys : List (String × UInt64)) : String :=
+  joinWith "," (keys.map fun k => match Memcached.pickServer Memcached.realStep sorted k.2 with
+    | some s => s | none => "err")
+
+def showBatch (sorted : List String) (keys : List (String × UInt64)) : String :=
+  match Memcached.pickForKeys Memcached.realStep sorted keys with
+  | none => "err"
+  | some m =>
+    let m := m.mergeSort (fun a b => !(b.1 < a.1))
+    joinWith ";" (m.map fun e => e.1 ++ "=" ++ joinWith "+" (e.2.map (·.1)))
+
 def handle : List String → String
+  | ["mc.jump", key, n] =>
+    match parseNat? key, parseNat? n with
+    | some key, some n =>
+      if key < 2 ^ 64 ∧ 1 ≤ n then
+        match Memcached.jumpHashWith Memcached.realStep (UInt64.ofNat key) n with
+        | some b => toString b
+        | none => "none"
+      else "bad-op"
+    | _, _ => "bad-op"
+  | ["mc.pick", listed, perm, keys] =>
+    match parseServers listed, parseNats? ',' perm, parseKeys keys with
+    | some l, some p, some ks =>
+      match sortedOf l p with
+      | some s => showSingle s ks ++ " " ++ showBatch s ks
+      | none => "bad-op"
+    | _, _, _ => "bad-op"
+  | ["mc.two", listedA, permA, listedB, permB, keys] =>
+    match parseServers listedA, parseNats? ',' permA, parseServers listedB, parseNats? ',' permB, parseKeys keys with
+    | some la, some pa, some lb, some pb, some ks =>
+      match sortedOf la pa, sortedOf lb pb with
+      | some sa, some sb => showSingle sa ks ++ " " ++ showSingle sb ks
+      | _, _ => "bad-op"
+    | _, _, _, _, _ => "bad-op"
   | ["rules.match", ls, sets] =>
     match parseLabels ls, parseSets sets with
     | some ls, some sets => toString (Rules.codeMatches rulesFixed rulesFresh sets ls)
